@@ -15,16 +15,16 @@ theorem recombine (n P : Nat) : (n % 128) * P + (n / 128) * (P * 128) = n * P :=
     _ = (n % 128 + 128 * (n / 128)) * P := (Nat.add_mul _ _ _).symm
     _ = n * P := by rw [← h]
 
-theorem decVarintAux_enc (fuel : Nat) : ∀ (i acc n : Nat) (rest : Bytes),
-    i + fuel = 10 → i ≤ 9 → n < 2 ^ (64 - 7 * i) →
-    decVarintAux fuel i acc (encVarint n ++ rest) = some (acc + n * 2 ^ (7 * i), rest) := by
-  induction fuel with
-  | zero => intro i acc n rest hi hi9; omega
-  | succ fuel ih =>
-    intro i acc n rest hi hi9 hn
-    unfold encVarint
-    by_cases hlt : n < 128
-    · simp only [hlt, dif_pos, List.singleton_append, decVarintAux]
+theorem decVarintAux_enc (fuelE : Nat) : ∀ (fuelD i acc n : Nat) (rest : Bytes),
+    i + fuelD = 10 → i ≤ 9 → n < 2 ^ (64 - 7 * i) → n < 2 ^ (7 * (fuelE + 1)) →
+    decVarintAux fuelD i acc (encVarintAux fuelE n ++ rest) = some (acc + n * 2 ^ (7 * i), rest) := by
+  have single : ∀ (fuelD i acc n : Nat) (rest : Bytes), i + fuelD = 10 → i ≤ 9 → n < 2 ^ (64 - 7 * i) → n < 128 →
+      decVarintAux fuelD i acc ([UInt8.ofNat n] ++ rest) = some (acc + n * 2 ^ (7 * i), rest) := by
+    intro fuelD i acc n rest hi hi9 hn hlt
+    cases fuelD with
+    | zero => omega
+    | succ fuelD =>
+      simp only [List.singleton_append, decVarintAux]
       have hb : (UInt8.ofNat n).toNat = n := ofNat_toNat_lt n (by omega)
       rw [hb]
       have hmod : n % 128 = n := Nat.mod_eq_of_lt hlt
@@ -35,36 +35,57 @@ theorem decVarintAux_enc (fuel : Nat) : ∀ (i acc n : Nat) (rest : Bytes),
         simp at hn
         omega
       simp [this]
-    · simp only [hlt, dif_neg, not_false_eq_true, List.cons_append, decVarintAux]
-      have hb : (UInt8.ofNat (n % 128 + 128)).toNat = n % 128 + 128 :=
-        ofNat_toNat_lt _ (by have := Nat.mod_lt n (by decide : 128 > 0); omega)
-      rw [hb]
-      have hnlt : ¬ (n % 128 + 128 < 128) := by omega
-      simp only [hnlt, if_false]
-      have hmod : (n % 128 + 128) % 128 = n % 128 := by omega
-      rw [hmod]
-      have hi8 : i ≤ 8 := by
-        by_cases h : i = 9
-        · subst h; simp at hn; omega
-        · omega
-      have hdiv : n / 128 < 2 ^ (64 - 7 * (i + 1)) := by
-        apply (Nat.div_lt_iff_lt_mul (by decide : 0 < 128)).mpr
-        have : 2 ^ (64 - 7 * i) = 2 ^ (64 - 7 * (i + 1)) * 128 := by
-          have : 64 - 7 * i = (64 - 7 * (i + 1)) + 7 := by omega
-          rw [this, Nat.pow_add]
-        rw [← this]; exact hn
-      rw [ih (i + 1) _ (n / 128) rest (by omega) (by omega) hdiv]
-      congr 2
-      rw [Nat.mul_add 7 i 1, Nat.pow_add, Nat.add_assoc]
-      congr 1
-      exact recombine n (2 ^ (7 * i))
+  induction fuelE with
+  | zero =>
+    intro fuelD i acc n rest hi hi9 hn hsmall
+    exact single fuelD i acc n rest hi hi9 hn (by simpa using hsmall)
+  | succ fuelE ih =>
+    intro fuelD i acc n rest hi hi9 hn hsmall
+    unfold encVarintAux
+    by_cases hlt : n < 128
+    · simp only [hlt, if_true]
+      exact single fuelD i acc n rest hi hi9 hn hlt
+    · simp only [hlt, if_false, List.cons_append]
+      cases fuelD with
+      | zero => omega
+      | succ fuelD =>
+        simp only [decVarintAux]
+        have hb : (UInt8.ofNat (n % 128 + 128)).toNat = n % 128 + 128 :=
+          ofNat_toNat_lt _ (by have := Nat.mod_lt n (by decide : 128 > 0); omega)
+        rw [hb]
+        have hnlt : ¬ (n % 128 + 128 < 128) := by omega
+        simp only [hnlt, if_false]
+        have hmod : (n % 128 + 128) % 128 = n % 128 := by omega
+        rw [hmod]
+        have hi8 : i ≤ 8 := by
+          by_cases h : i = 9
+          · subst h; simp at hn; omega
+          · omega
+        have hdiv : n / 128 < 2 ^ (64 - 7 * (i + 1)) := by
+          apply (Nat.div_lt_iff_lt_mul (by decide : 0 < 128)).mpr
+          have : 2 ^ (64 - 7 * i) = 2 ^ (64 - 7 * (i + 1)) * 128 := by
+            have : 64 - 7 * i = (64 - 7 * (i + 1)) + 7 := by omega
+            rw [this, Nat.pow_add]
+          rw [← this]; exact hn
+        have hdiv2 : n / 128 < 2 ^ (7 * (fuelE + 1)) := by
+          apply (Nat.div_lt_iff_lt_mul (by decide : 0 < 128)).mpr
+          have : 2 ^ (7 * (fuelE + 1 + 1)) = 2 ^ (7 * (fuelE + 1)) * 128 := by
+            have : 7 * (fuelE + 1 + 1) = 7 * (fuelE + 1) + 7 := by omega
+            rw [this, Nat.pow_add]
+          rw [← this]; exact hsmall
+        rw [ih fuelD (i + 1) _ (n / 128) rest (by omega) (by omega) hdiv hdiv2]
+        congr 2
+        rw [Nat.mul_add 7 i 1, Nat.pow_add, Nat.add_assoc]
+        congr 1
+        exact recombine n (2 ^ (7 * i))
 
 /-- **varint round trip**: decoding the encoding of a `u64`, followed by anything, gives the value
 back and leaves the rest -/
 theorem decVarint_encVarint (n : Nat) (rest : Bytes) (h : n < 2 ^ 64) :
     decVarint (encVarint n ++ rest) = some (n, rest) := by
-  have := decVarintAux_enc 10 0 0 n rest (by omega) (by omega) (by simpa using h)
-  simpa [decVarint] using this
+  have h70 : n < 2 ^ (7 * (9 + 1)) := Nat.lt_of_lt_of_le h (by decide)
+  have := decVarintAux_enc 9 10 0 0 n rest (by omega) (by omega) (by simpa using h) h70
+  simpa [decVarint, encVarint] using this
 
 theorem takeN_append (a rest : Bytes) : takeN a.length (a ++ rest) = some (a, rest) := by
   simp [takeN]
